@@ -601,6 +601,12 @@ fn c11_pass(sink: &mut Sink, rng: &mut Rng, thorough: bool) {
     };
     // writer rows = model rows
     sink.emit(&format!("st_fits_enc 64 {}", txt), &rows_txt, nontrivial);
+    {
+      // the whole file, byte for byte (header cards included), against the model's file
+      let mut h: u64 = 14695981039346656037;
+      for x in buf.iter() { h = (h ^ (*x as u64)).wrapping_mul(1099511628211); }
+      sink.emit(&format!("st_fits_file 64 {} {} {}", moc2.depth_max_1(), moc2.depth_max_2(), txt), &format!("{}:{}", buf.len(), h), nontrivial);
+    }
     // reader on the real rows = model reader
     let back = guarded(AssertUnwindSafe(|| match from_fits_ivoa(std::io::Cursor::new(&buf)) {
       Ok(MocIdxType::U64(MocQtyType::TimeHpx(STMocType::V2(it)))) => {
